@@ -494,7 +494,9 @@ func ruleInc3(c *Ctx) []*Ob {
 				o.add(w.fn, construct, c.instrPos(pos), true, "recursive call inside the loop over "+mname)
 				// every way around the loop either recurses or passes an allowed skip edge
 				for _, scc := range loops {
-					if bad := loopSkipsRecursion(c, f, scc, mname); bad != "" {
+					if w.fn == "(*segmentStack).isEmpty" {
+						o.trivial(w.fn, "no unlisted skip in the loop over "+mname, c.instrPos(pos), "table exception: an existential query - the first non-empty child answers 'not empty'")
+					} else if bad := loopSkipsRecursion(c, f, scc, mname); bad != "" {
 						o.add(w.fn, "no unlisted skip in the loop over "+mname, c.instrPos(pos), false, bad)
 					} else {
 						o.add(w.fn, "no unlisted skip in the loop over "+mname, c.instrPos(pos), true,
@@ -753,7 +755,67 @@ func loopSkipsRecursion(c *Ctx, f *ssa.Function, scc map[*ssa.BasicBlock]bool, m
 	if skipped {
 		return "an iteration over " + mname + " can complete without the recursive call on a condition that is neither a missing counterpart, an incarnation mismatch nor the deleted marker: the child is silently left out of the result (downstream, an absent child means 'deleted')"
 	}
-	return ""
+	// leaving the loop early (return / break inside the body) and then reporting success leaves the remaining children unvisited
+	res := f.Signature.Results()
+	hasErr := res.Len() > 0 && isErrorType(res.At(res.Len()-1).Type())
+	errCells := map[ssa.Value]bool{}
+	eachInstr(f, func(q ssa.Instruction) {
+		if r, isR := q.(*ssa.Return); isR && hasErr && len(r.Results) > 0 {
+			if ld, isLd := r.Results[len(r.Results)-1].(*ssa.UnOp); isLd && ld.Op == token.MUL {
+				if a, isA := ld.X.(*ssa.Alloc); isA {
+					errCells[a] = true
+				}
+			}
+		}
+	})
+	early := ""
+	for b := range scc {
+		for si, sblk := range b.Succs {
+			if scc[sblk] || early != "" {
+				continue
+			}
+			// the range's own exhaustion test is the natural exit
+			natural := false
+			if iff, isIf := b.Instrs[len(b.Instrs)-1].(*ssa.If); isIf {
+				if e, isE := iff.Cond.(*ssa.Extract); isE {
+					if _, isNext := e.Tuple.(*ssa.Next); isNext {
+						natural = true
+					}
+				}
+				_ = si
+			}
+			if natural {
+				continue
+			}
+			// from here: does a success return follow?
+			success := ""
+			walk(point{sblk, 0}, walkOpts{noInline: true, visit: func(i ssa.Instruction, t *tracker) bool {
+				if success != "" {
+					return true
+				}
+				if st, isSt := i.(*ssa.Store); isSt && errCells[st.Addr] {
+					if isNilConst(st.Val) {
+						success = c.instrPos(i)
+					}
+					return true
+				}
+				if r, isR := i.(*ssa.Return); isR {
+					if !hasErr {
+						success = c.instrPos(i)
+					} else if last := r.Results[len(r.Results)-1]; isNilConst(last) {
+						success = c.instrPos(i)
+					}
+					return true
+				}
+				return false
+			}})
+			if success != "" {
+				early = "the loop over " + mname + " can be left from inside its body (a return / break at " + c.pos(b.Instrs[len(b.Instrs)-1].Pos()) +
+					") and the function then reports success (" + success + "): the children not yet visited - map order is random - are left out (unsorted, unpersisted or dropped)"
+			}
+		}
+	}
+	return early
 }
 
 // subjectParams: indices of parameters p of f such that f ranges over p.<mapName>.
@@ -1062,30 +1124,46 @@ func ruleInc6(c *Ctx) []*Ob {
 					o.trivial(fn, construct, c.instrPos(ea.instr), "table exception: "+why)
 					continue
 				}
-				compared := ""
-				eachInstr(f, func(i ssa.Instruction) {
-					bo, ok := i.(*ssa.BinOp)
-					if !ok || (bo.Op != token.EQL && bo.Op != token.NEQ) || compared != "" {
-						return
-					}
-					// the comparison is about incarnations: an operand loads incarNum, or comes from a helper that does
-					if !mentionsIncarNum(c, bo.X) && !mentionsIncarNum(c, bo.Y) {
-						return
-					}
-					for _, x := range els {
-						if x.source != ea.source || !sameKey(x.key, ea.key) {
-							continue
+				comparedPair := func(ea, eb childElem) string {
+					compared := ""
+					eachInstr(f, func(i ssa.Instruction) {
+						bo, ok := i.(*ssa.BinOp)
+						if !ok || (bo.Op != token.EQL && bo.Op != token.NEQ) || compared != "" {
+							return
 						}
-						for _, y := range els {
-							if y.source != eb.source || !sameKey(y.key, eb.key) {
+						// the comparison is about incarnations: an operand loads incarNum, or comes from a helper that does
+						if !mentionsIncarNum(c, bo.X) && !mentionsIncarNum(c, bo.Y) {
+							return
+						}
+						for _, x := range els {
+							if x.source != ea.source || !sameKey(x.key, ea.key) {
 								continue
 							}
-							if (reachesElem(bo.X, x.v) && reachesElem(bo.Y, y.v)) || (reachesElem(bo.X, y.v) && reachesElem(bo.Y, x.v)) {
-								compared = c.instrPos(i)
+							for _, y := range els {
+								if y.source != eb.source || !sameKey(y.key, eb.key) {
+									continue
+								}
+								if (reachesElem(bo.X, x.v) && reachesElem(bo.Y, y.v)) || (reachesElem(bo.X, y.v) && reachesElem(bo.Y, x.v)) {
+									compared = c.instrPos(i)
+								}
 							}
 						}
+					})
+					return compared
+				}
+				compared := comparedPair(ea, eb)
+				if compared == "" {
+					// both compared with a third counterpart of the same name (A == C and C == B)
+					for _, ec := range els {
+						if ec.source == ea.source || ec.source == eb.source || !sameKey(ec.key, ea.key) {
+							continue
+						}
+						if p1, p2 := comparedPair(ea, ec), comparedPair(ec, eb); p1 != "" && p2 != "" {
+							compared = p1 + " and " + p2 + " (through " + strings.Split(ec.source, "@")[0] + ")"
+							break
+						}
 					}
-				})
+				}
 				why = "the two counterparts' incarnation numbers are compared at " + compared
 				if compared == "" {
 					why = "the child's counterparts from two trees are paired by name alone: after the child was deleted and recreated, the new child is combined with its predecessor's data (deleted keys resurface, merges resolve against old values)"
@@ -1125,4 +1203,82 @@ func mentionsIncarNum(c *Ctx, v ssa.Value) bool {
 		}
 	})
 	return found
+}
+
+// ---------------------------------------------------------------- INC-7
+
+func init() {
+	register(&Rule{
+		ID: "INC-7",
+		Doc: "A walk over the children goes all the way down: inside a loop over a child map (childSegStacks, ChildFooters, childCollections, childBatches) a call of a moss method on the child " +
+			"element whose receiver type is the type of the enclosing function's own subject calls a function that itself walks that child map (the function itself, or a sibling walker) - " +
+			"unless the callee is in the table of deliberately shallow operations (reference counting, Close, lookups by name). The walkers are discovered, not listed: statsDeep, height, " +
+			"isEmpty, ensureFullySorted, merge, … A walker that calls the shallow sibling (statsDeep calling Stats) covers children but not grandchildren.",
+		Props: []string{"C20", "C11", "C16"},
+		Floor: 5,
+		Run:   ruleInc7,
+	})
+}
+
+func ruleInc7(c *Ctx) []*Ob {
+	o := newObs(c, "INC-7")
+	// walkers: functions that range over a child map and call themselves inside that loop
+	rangesChild := func(g *ssa.Function) bool {
+		for m := range childMapNames {
+			if len(rangeLoopsOver(g, m)) > 0 {
+				return true
+			}
+		}
+		return false
+	}
+	shallowOK := map[string]string{
+		"addRef": "reference counting is per object", "AddRef": "reference counting is per object", "decRef": "releases recursively by itself", "DecRef": "releases recursively by itself",
+		"Close": "releases recursively by itself", "getOrInitChildStack": "creates the child's stack", "Len": "a batch's own length", "isEmpty": "",
+	}
+	for _, f := range c.Funcs {
+		if c.isHarness(f) || f.Parent() != nil || f.Signature.Recv() == nil {
+			continue
+		}
+		fn := c.fname(f)
+		recvT := typeName(f.Signature.Recv().Type())
+		for m := range childMapNames {
+			for _, scc := range rangeLoopsOver(f, m) {
+				eachInstr(f, func(i ssa.Instruction) {
+					call, ok := i.(*ssa.Call)
+					if !ok || !scc[i.Block()] {
+						return
+					}
+					g := call.Call.StaticCallee()
+					if g == nil || g.Pkg != c.Moss || g.Signature.Recv() == nil || len(call.Call.Args) == 0 {
+						return
+					}
+					if typeName(g.Signature.Recv().Type()) != recvT {
+						return
+					}
+					// the receiver is the child element of this loop
+					isChild := false
+					for _, og := range origins(call.Call.Args[0]) {
+						if _, _, isEl := childKeyOf(og); isEl {
+							isChild = true
+						}
+					}
+					if !isChild {
+						return
+					}
+					construct := "child call " + g.Name() + " in the loop over " + m
+					if g == f || rangesChild(g) {
+						o.add(fn, construct, c.instrPos(i), true, "the callee walks the children itself")
+						return
+					}
+					if why, isOK := shallowOK[g.Name()]; isOK && g.Name() != "isEmpty" {
+						o.trivial(fn, construct, c.instrPos(i), "table: deliberately shallow ("+why+")")
+						return
+					}
+					o.add(fn, construct, c.instrPos(i), false,
+						"inside its loop over "+m+" the function calls "+g.Name()+" on the child, which does not look at the child's own children: grandchildren are not covered (dirty work of a nested child collection is invisible to the gauges / unsorted / unpersisted)")
+				})
+			}
+		}
+	}
+	return o.list
 }
